@@ -241,7 +241,7 @@ theorem C38_timers_well_formed_always (v : Variant) (ops : List Op) : ∀ (w : W
       | finish => simp [step, World.call, hex] at he2; subst he2; exact ⟨h1, h2, h3, h4⟩
       | fail => simp [step, World.call, hex, fail] at he2; subst he2; exact ⟨h1, h2, h3, h4⟩
       | run => simp [step, World.call, hex] at he2; subst he2; exact ⟨h1, h2, h3, h4⟩
-      | send tx =>
+      | send via tx =>
         simp only [step, World.call, hex] at he2
         cases tx with
         | none =>
